@@ -53,6 +53,7 @@ class Conv:
                 self.modname[uid] = n.find("uniquename").text
         self.out = []
         self.letdefs = {}
+        self.helpers = []
 
     def loc_file(self, n):
         loc = n.find("location")
@@ -73,6 +74,9 @@ class Conv:
         if tag == "BuiltInKindRef":
             name = self.ents[uid].find("uniquename").text
             bounds = self.bounds(node)
+            if bounds is None and name in ("$IfThenElse", "$ConjList", "$DisjList", "\\land", "\\lor"):
+                # big operands of the connectives are built when first evaluated
+                args = [self.lazy(a) for a in args]
             if bounds is not None:
                 return "Q(%s, []snBound{%s}, %s)" % (gostr(name), ", ".join(bounds), ", ".join(args))
             return "B(%s%s)" % (gostr(name), "".join(", " + a for a in args))
@@ -112,7 +116,21 @@ class Conv:
                 out.append("{names: []string{%s}}" % ", ".join(gostr(n) for n in names))
         return out
 
+    def lazy(self, a):
+        if a.startswith("snH") and a.endswith("()") and a[3:-2].isdigit():
+            return "LZ(%s)" % a[:-2]
+        return a
+
     def conv(self, n):
+        r = self.conv0(n)
+        if len(r) > 1200:
+            self.nhelp = getattr(self, 'nhelp', 0) + 1
+            name = 'snH%d' % self.nhelp
+            self.helpers.append('func %s() *sn { return %s }' % (name, r))
+            return name + '()'
+        return r
+
+    def conv0(self, n):
         t = n.tag
         if t == "OpApplNode":
             op = n.find("operator")[0]
@@ -166,7 +184,7 @@ class Conv:
         if body is None or len(body) == 0:
             return None
         key = name + "#" + uid if local else name
-        return "{name: %s, params: []string{%s}, body: %s}" % (gostr(key), ", ".join(gostr(p) for p in params), self.conv(body[0]))
+        return "{name: %s, params: []string{%s}, body: %s}" % (gostr(key), ", ".join(gostr(p) for p in params), self.lazy(self.conv(body[0])))
 
     def run(self, pkg):
         lines = ["//go:build verif", "", "package " + pkg, "",
@@ -206,15 +224,15 @@ class Conv:
             if g is None:
                 continue
             # definitions that turned out to be LET-local are filtered at the end
-            lines.append("func init() { specDefine(&snDef%s) } // uid %s" % (g, uid))
+            lines.append("func init() { specDefineLazy(%s, func() *snDef { return &snDef%s }) } // uid %s" % (gostr(d.find("uniquename").text), g, uid))
             n += 1
         # drop top-level emissions of let-local definitions
         final = []
         for ln in lines:
-            if ln.startswith("func init() { specDefine(") and ln.rsplit("uid ", 1)[1] in self.letdefs:
+            if ln.startswith("func init() { specDefineLazy(") and ln.rsplit("uid ", 1)[1] in self.letdefs:
                 continue
             final.append(ln)
-        return "\n".join(final) + "\n"
+        return "\n".join(final) + "\n\n" + "\n".join(self.helpers) + "\n"
 
 
 def main():
